@@ -55,3 +55,59 @@ package cli
 //@   ensures returns: ((err == errHelpRequested || err == errVersionRequested) ? c.ErrorHandling != 1 : (c.ErrorHandling != 1 && c.ErrorHandling != 2)) && trace == old(trace)
 //@   panics raise: !(err == errHelpRequested || err == errVersionRequested) && c.ErrorHandling == 2 && panicval == err && trace == old(trace)
 //@   exits status: c.ErrorHandling == 1 && trace == old(trace) ++ seq(evExit((err == errHelpRequested || err == errVersionRequested) ? 0 : 2))
+
+// --- declarations (C18, C06, C17) -------------------------------------------------------------------------------------------
+// mkOptStrs: one-letter names become short options, longer ones long options
+//@ pure func optStr(f string) string = len(f) == 1 ? "-" + f : "--" + f
+
+//@ func mkOptStrs
+//@   ensures names: len(result) == len(strings_Fields(optName)) &&
+//@       (forall j int :: {result[j]} 0 <= j && j < len(result) ==> result[j] == optStr(strings_Fields(optName)[j]))
+//@   loop 1 invariant done: len(res) == len(strings_Fields(optName)) &&
+//@       (forall j int :: {res[j]} 0 <= j && j < len(res) ==> res[j] == (j < $k ? optStr(strings_Fields(optName)[j]) : strings_Fields(optName)[j]))
+
+// mkOpt: every listed name becomes a key of the name table pointing at the one new container; a name that is already a
+// key, or is listed twice, panics; the default is captured before the environment is applied.
+//@ func (*Cmd).mkOpt
+//@   requires recv: c != nil && c.optionsIdx != nil
+//@   requires value: opt.Value != nil && (builtinValue(opt.Value) ==> ival(opt.Value) != 0)
+//@   let names = strings_Fields(opt.Name)
+//@   let t0 = len(trace)
+//@   ensures registered: len(c.options) == old(len(c.options)) + 1 && c.options[old(len(c.options))] != nil && fresh(c.options[old(len(c.options))]) &&
+//@       (forall j int :: 0 <= j && j < old(len(c.options)) ==> c.options[j] == old(c.options[j]))
+//@   ensures no-collision: forall j int :: 0 <= j && j < len(names) ==> !old(optStr(names[j]) in c.optionsIdx)
+//@   ensures no-repeat: forall i int, j int :: 0 <= i && i < j && j < len(names) ==> names[i] != names[j]
+//@   ensures table: forall n string :: {n in c.optionsIdx} (n in c.optionsIdx) <==> (old(n in c.optionsIdx) || (exists j int :: 0 <= j && j < len(names) && n == optStr(names[j])))
+//@   ensures table-new: forall j int :: 0 <= j && j < len(names) ==> c.optionsIdx[optStr(names[j])] == c.options[old(len(c.options))]
+//@   ensures table-old: forall n string :: old(n in c.optionsIdx) ==> c.optionsIdx[n] == old(c.optionsIdx[n])
+//@   ensures default-before-env: c.options[old(len(c.options))].DefaultValue ==
+//@       ((implements(opt.Value, "values.DefaultValued") && valueIsDefault(opt.Value, t0)) ? "" :
+//@        valueString(opt.Value, implements(opt.Value, "values.DefaultValued") ? t0 + 1 : t0))
+//@   panics duplicate: isType(panicval, "string")
+//@   loop 1 invariant sofar: opt.Names == opt.Names && (forall j int :: 0 <= j && j < $k ==> !old(optStr(names[j]) in c.optionsIdx))
+//@   loop 1 invariant distinct: forall i int, j int :: 0 <= i && i < j && j < $k ==> names[i] != names[j]
+//@   loop 1 invariant table: forall n string :: {n in c.optionsIdx} (n in c.optionsIdx) <==> (old(n in c.optionsIdx) || (exists j int :: 0 <= j && j < $k && n == optStr(names[j])))
+//@   loop 1 invariant table-new: forall j int :: 0 <= j && j < $k ==> c.optionsIdx[optStr(names[j])] == c.options[old(len(c.options))]
+//@   loop 1 invariant table-old: forall n string :: old(n in c.optionsIdx) ==> c.optionsIdx[n] == old(c.optionsIdx[n])
+//@   loop 1 invariant frame: frameMap(c.optionsIdx)
+
+// validArgName (C18): a blank-free name passes only if it is one upper-case identifier (and not the OPTIONS keyword)
+//@ pure func noBlank(n string) bool = forall i int :: 0 <= i && i < len(n) ==> !blank(n[i])
+//@ func validArgName
+//@   reveal tokShape, blankRange
+//@   ensures identifier: result && noBlank(n) && len(n) > 0 ==> upper(n[0]) && (forall i int :: 1 <= i && i < len(n) ==> okArg(n[i])) && n != "OPTIONS"
+//@   ensures non-empty: result ==> len(n) > 0
+
+//@ func (*Cmd).mkArg
+//@   requires recv: c != nil && c.argsIdx != nil
+//@   requires value: arg.Value != nil && (builtinValue(arg.Value) ==> ival(arg.Value) != 0)
+//@   let t0 = len(trace)
+//@   ensures valid-name: noBlank(arg.Name) ==> upper(arg.Name[0]) && (forall i int :: 1 <= i && i < len(arg.Name) ==> okArg(arg.Name[i])) && arg.Name != "OPTIONS"
+//@   ensures no-collision: !old(arg.Name in c.argsIdx)
+//@   ensures registered: len(c.args) == old(len(c.args)) + 1 && c.args[old(len(c.args))] != nil && fresh(c.args[old(len(c.args))]) &&
+//@       (forall j int :: 0 <= j && j < old(len(c.args)) ==> c.args[j] == old(c.args[j])) && c.args[old(len(c.args))].Name == arg.Name
+//@   ensures table: (arg.Name in c.argsIdx) && c.argsIdx[arg.Name] == c.args[old(len(c.args))] && frame(c.argsIdx[arg.Name])
+//@   ensures default-before-env: c.args[old(len(c.args))].DefaultValue ==
+//@       ((implements(arg.Value, "values.DefaultValued") && valueIsDefault(arg.Value, t0)) ? "" :
+//@        valueString(arg.Value, implements(arg.Value, "values.DefaultValued") ? t0 + 1 : t0))
+//@   panics invalid: isType(panicval, "string")
